@@ -20,12 +20,16 @@ pub struct C11;
 /// it; indices beyond the actual list are empty items).
 const N_PAIRS_HINT: u64 = 1536;
 
+/// Scalar values per item of the "related" list (every scalar value is visited).
+const RELATED_BLOCK: u64 = 0x1000;
+
 fn space_for(tier: Tier) -> (Space, usize) {
     let mut s = Space::new();
     match tier {
         Tier::Quick => {
             s.ast("CI", 4, 32);
             s.list("letters", N_PAIRS_HINT, 8);
+            s.list("related", 0x110000 / RELATED_BLOCK, 1);
             (s, 2)
         }
         Tier::Thorough => {
@@ -34,6 +38,7 @@ fn space_for(tier: Tier) -> (Space, usize) {
             // possibly-empty body (the greedy-repeat defect D17 is owned by C01)
             s.ast_range("CI", 5, 5, 32, 1);
             s.list("letters", N_PAIRS_HINT, 8);
+            s.list("related", 0x110000 / RELATED_BLOCK, 1);
             (s, 3)
         }
     }
@@ -167,6 +172,12 @@ impl Check for C11 {
         let (sp, maxlen) = space_for(ctx.tier);
         let (seg, lo, hi) = sp.locate(chunk);
         let scope_name = space::seg_scope_name(seg);
+        if let SegKind::List { name: "related" } = seg.kind {
+            for i in lo..hi {
+                self.related_block(out, &scope_name, (i * RELATED_BLOCK) as u32, ((i + 1) * RELATED_BLOCK) as u32);
+            }
+            return;
+        }
         if let SegKind::List { .. } = seg.kind {
             let pairs = letter_pairs(&ctx.ucd);
             out.max("letter_pairs", pairs.len() as u64);
@@ -265,6 +276,63 @@ impl Check for C11 {
 }
 
 impl C11 {
+    /// Every character c of the block that has a simple upper- or lower-case
+    /// mapping (data: ICU's simple mappings, the crate regexml itself uses), with each
+    /// of its counterparts x: as a literal, a class member, a one-character range
+    /// and a back-reference, c must match x and x must match c under flag i, the
+    /// negated class must not, and without the flag the literal must not.
+    fn related_block(&self, out: &mut ChunkOut, scope: &str, lo: u32, hi: u32) {
+        let cm = icu_casemap::CaseMapper::new();
+        for cp in lo..hi {
+            let c = match char::from_u32(cp) {
+                Some(c) => c,
+                None => continue,
+            };
+            let mut partners: Vec<char> = vec![];
+            for x in [cm.simple_uppercase(c), cm.simple_lowercase(c)] {
+                if x != c && !partners.contains(&x) {
+                    partners.push(x);
+                }
+            }
+            if partners.is_empty() {
+                continue;
+            }
+            out.inc("related_characters");
+            for x in partners {
+                for (p, i) in [(c, x), (x, c)] {
+                    // (pattern, flags, input, expected)
+                    let cases: Vec<(String, &str, String, bool)> = vec![
+                        (format!("^{}$", p), "i", i.to_string(), true),
+                        (format!("^{}$", p), "", i.to_string(), false),
+                        (format!("^[{}]$", p), "i", i.to_string(), true),
+                        (format!("^[{}-{}]$", p, p), "i", i.to_string(), true),
+                        (format!("^[1{}-[1]]$", p), "i", i.to_string(), true),
+                        (format!("^[^{}]$", p), "i", i.to_string(), false),
+                        (format!("^({})\\1$", p), "i", format!("{}{}", p, i), true),
+                        (format!("^(.)\\1$"), "i", format!("{}{}", p, i), true),
+                        (format!("^{}+1$", p), "i", format!("{}{}1", i, p), true),
+                        (format!("^1*{}$", p), "i", format!("11{}", i), true),
+                    ];
+                    for (pat, flags, inp, want) in cases {
+                        out.inc("states");
+                        let re = match common::compile(&pat, flags, false) {
+                            Compiled::Ok(r) => r,
+                            _ => {
+                                out.inc("rejected_or_crash");
+                                continue;
+                            }
+                        };
+                        out.inc("validated");
+                        if let Out::Ok(got) = imp::is_match(&re, &inp) {
+                            if got != want {
+                                out.fail("C11", &Case::new(scope, &pat, flags).input(&inp).api("is_match"), "SimpleCounterpart", &want.to_string(), &got.to_string(), "pattern character and input character are simple upper/lower-case counterparts (ICU simple mappings)");
+                            }
+                        }
+                    }
+                }
+            }
+        }
+    }
     fn one(&self, ctx: &Ctx, out: &mut ChunkOut, scope: &str, text: &str, inputs: &[String]) {
         let parsed = match common::ref_valid(text, ctx) {
             Some(p) => p,
